@@ -1,6 +1,8 @@
-(* C19 — Election timer. Part (a): the timeout formula. Part (b) (trigger discipline) is in the
-   Timer section below once Timer.v is part of the build. *)
-From LH Require Import Prims Timeout.
+(* C19 — Election timer. Part (a): the timeout formula. Part (b): the trigger discipline of
+   timer_based_election_trigger.go for every interleaving of RegisterOnElection / Stop with timer expiry and a slow
+   or absent channel reader (Timer.v), and what the loops do with a trigger (Loops.v). Time itself ("not before the
+   timeout", "eventually fires") is time.AfterFunc's contract and is observed by the runtime engine of the check. *)
+From LH Require Import Prims Timeout Timer TimerFacts Contexts Loops LoopsFacts.
 
 Theorem C19_formula : forall base v, (0 < base)%Z -> (base <= MAXD)%Z -> calcTimeout base v = specTimeout base v.
 Proof. exact calcTimeout_is_spec. Qed.
@@ -22,3 +24,55 @@ Theorem C19_wrapping_formula_refuted :
   exists base v, (0 < base)%Z /\ (calcTimeout_v0 base v < 0)%Z /\ exists v', calcTimeout_v0 base v' = 0%Z.
 Proof. exact calcTimeout_v0_refuted. Qed.
 Print Assumptions C19_wrapping_formula_refuted.
+
+(* ---- part (b) ---- *)
+Theorem C19_at_most_one_trigger_per_arming : forall ops, NoDup (map (fun d => fst (fst d)) (tm_delivered (tm_run ops))).
+Proof. exact at_most_one_trigger_per_arming. Qed.
+Print Assumptions C19_at_most_one_trigger_per_arming.
+
+Theorem C19_trigger_carries_the_armed_pair : forall ops i h v, In (i, h, v) (tm_delivered (tm_run ops)) ->
+  exists x, nth_error (tm_insts (tm_run ops)) i = Some x /\ ti_h x = h /\ ti_v x = v.
+Proof. exact trigger_carries_the_armed_pair. Qed.
+Print Assumptions C19_trigger_carries_the_armed_pair.
+
+Theorem C19_current_instance_carries_the_armed_pair : forall ops i, tm_cur (tm_run ops) = Some i ->
+  exists x, nth_error (tm_insts (tm_run ops)) i = Some x /\ ti_h x = tm_h (tm_run ops) /\ ti_v x = tm_v (tm_run ops).
+Proof. exact current_instance_carries_the_armed_pair. Qed.
+Print Assumptions C19_current_instance_carries_the_armed_pair.
+
+(* re-arming or stopping: the old instance never triggers again, except when it was cancelled in the window between
+   the two selects of triggerElections (then it may still hand over its old pair once) ... *)
+Theorem C19_superseded_instance : forall ops1 j x,
+  nth_error (tm_insts (tm_run ops1)) j = Some x -> tm_cur (tm_run ops1) <> Some j ->
+  (forall ops2 h v, In (j, h, v) (tm_delivered (tm_run (ops1 ++ ops2))) -> In (j, h, v) (tm_delivered (tm_run ops1)))
+  \/ limbo x.
+Proof. exact superseded_instance. Qed.
+Print Assumptions C19_superseded_instance.
+
+Theorem C19_stopped_before_fire_never_triggers : forall ops1 ops2 j x h v,
+  nth_error (tm_insts (tm_run ops1)) j = Some x -> ti_phase x = TStoppedBeforeFire ->
+  ~ In (j, h, v) (tm_delivered (tm_run (ops1 ++ ops2))).
+Proof. exact stopped_before_fire_never_triggers. Qed.
+Print Assumptions C19_stopped_before_fire_never_triggers.
+
+(* ... and such a late trigger, like every trigger whose pair is not the worker's current (height, view), is not acted upon *)
+Theorem C19_stale_trigger_not_acted_upon : forall s h v s' block, l_elect s = Some (h, v) -> (h, v) <> (l_wh s, l_wv s) ->
+  lstep s (LWorkerElect block) = Some s' ->
+  block = None /\ l_wh s' = l_wh s /\ l_wv s' = l_wv s /\ l_rounds s' = l_rounds s /\ l_armed s' = l_armed s /\ l_reg s' = l_reg s /\ l_worker s' = WSelect.
+Proof. exact stale_trigger_changes_nothing. Qed.
+Print Assumptions C19_stale_trigger_not_acted_upon.
+
+Theorem C19_timer_armed_for_current_position : forall s h v, reach s -> l_armed s = Some (h, v) -> h = l_wh s /\ v = l_wv s.
+Proof. exact timer_armed_for_current_position. Qed.
+Print Assumptions C19_timer_armed_for_current_position.
+
+(* an armed, un-superseded instance that has fired can hand over its trigger whenever a reader comes *)
+Theorem C19_live_instance_can_deliver : forall s i x, nth_error (tm_insts s) i = Some x -> ti_phase x = TRunning -> ti_cancelled x = false ->
+  In (i, ti_h x, ti_v x) (tm_delivered (tm_step (tm_step s (TCheck i)) (TDeliver i))).
+Proof. exact live_instance_can_deliver. Qed.
+Print Assumptions C19_live_instance_can_deliver.
+
+Theorem C19_select_race_witness :
+  tm_delivered (tm_run [TRegister 1 0; TFire 0; TCheck 0; TRegister 1 1; TDeliver 0]) = [(0%nat, 1, 0)].
+Proof. exact timer_select_race. Qed.
+Print Assumptions C19_select_race_witness.
